@@ -4,6 +4,7 @@
    (an appended message carries the addressing of the handler's record) this is "the re-addressing comes from the pairing". *)
 From Coq Require Import List String NArith ZArith Bool Arith Lia.
 From Verif Require Import Base.Util Reader.Model Reader.Proofs C04.Proofs.
+From Verif Require Import Reader.Forget.
 From Verif Require C16.Model C16.Manager.
 Import ListNotations.
 
@@ -196,7 +197,9 @@ Qed.
 
 Lemma step_GInv retries ls s l : GInv ls s -> GInv (ls ++ [l]) (step retries s l).
 Proof.
-  intros G0. pose proof (GInv_mono ls [l] s G0) as G. clear G0. unfold step. apply fire_GInv.
+  intros G0. pose proof (GInv_mono ls [l] s G0) as G. clear G0. unfold step.
+  match goal with |- GInv _ (forget_fired ?l0 ?b0 ?y) => pose proof (forget_fired_frame l0 b0 y) as FF; unfold same_but_heap in FF; apply (GInv_ext _ y); [apply FF|apply FF|] end.
+  apply fire_GInv.
   destruct l as [c|c pid pname th pd|c cname spch p answers|cs|c spchs|ns nt].
   - (* StartColl *)
     destruct (zmem _ _); [exact G|]. destruct (zlookup _ _); [exact G|]. destruct (pairing c) as [shards|] eqn:Hp; [|exact G].
